@@ -228,6 +228,12 @@ func ruleDupSilent(r *Report) {
 			}
 			evs := errValues(sc)
 			notDup := condEdges(fn, func(cond ssa.Value) (bool, bool) {
+				if c, isCall := cond.(*ssa.Call); isCall && cname(c) == "errors.Is" && len(c.Call.Args) == 2 {
+					if evs[c.Call.Args[0]] && isConstErr(c.Call.Args[1], kexists) {
+						return false, true
+					}
+					return false, false
+				}
 				bo, ok := cond.(*ssa.BinOp)
 				if !ok || (bo.Op != token.EQL && bo.Op != token.NEQ) {
 					return false, false
